@@ -21,7 +21,7 @@ import (
 )
 
 type HOp struct {
-	Kind string `json:"op"` // open-rw, open-ro, close, publish, fail-flags, fail-corrupt, fail-missing, ro-queries
+	Kind string `json:"op"` // open-rw, open-ro, close, publish, fail-flags, fail-corrupt, fail-missing, fail-listing, ro-queries
 	Slot int    `json:"slot"`
 	RO   bool   `json:"ro,omitempty"`
 	N    int    `json:"n,omitempty"`
@@ -462,6 +462,39 @@ func (h *hEnv) apply(op HOp) {
 			h.fail("Close failed: %v", cerr)
 		}
 		h.st.Inc("opens_parked_in_lock_acquisition_while_writer_closes")
+	case "fail-listing":
+		// a stray file that makes the segment listing fail after the lock was taken: whatever Open answers, the
+		// lock must be free again afterwards ("the lock is released by Close and by a failed Open")
+		if rw != 0 {
+			return
+		}
+		stray := filepath.Join(h.dir, []string{"notes.log", "x1.log", "backup.index", "0000000000000000000z.log"}[op.N%4])
+		if err := os.WriteFile(stray, []byte("stray"), 0600); err != nil {
+			return
+		}
+		o := h.opts(op.RO || ro > 0)
+		l, err := klevdb.Open(h.dir, o)
+		_ = os.Remove(stray)
+		if err == nil {
+			_ = l.Close()
+			h.st.Inc("opens_with_a_stray_file_that_succeeded")
+		} else {
+			h.flags["failed-open"] = true
+			h.st.Inc("failed_opens")
+			h.st.Inc("failed_opens_in_segment_listing")
+		}
+		o2 := h.opts(ro > 0)
+		l2, err2 := klevdb.Open(h.dir, o2)
+		if err2 != nil {
+			h.fail("an Open (read-only=%v) with a stray file %s in the directory returned %v; afterwards, with the file removed and %d read-only handles open, Open (read-only=%v) fails: %v", o.Readonly, filepath.Base(stray), err, ro, o2.Readonly, err2)
+			return
+		}
+		if err != nil {
+			h.flags["failed-then-ok"] = true
+		}
+		if cerr := l2.Close(); cerr != nil {
+			h.fail("Close failed: %v", cerr)
+		}
 	case "fail-missing":
 		o := h.opts(op.RO)
 		if l, err := klevdb.Open(filepath.Join(h.dir, "no-such-dir"), o); err == nil {
@@ -503,7 +536,7 @@ func runHandlesCase(c *HandlesCase, st *Stats) {
 func genHandlesCase(t *rapid.T) *HandlesCase {
 	c := &HandlesCase{Keys: rapid.Bool().Draw(t, "keys"), Times: rapid.Bool().Draw(t, "times"), Rollover: int64(pick(t, []int{100, 300, 1 << 20}, "rollover"))}
 	n := 5 + uni(t, 40, "nops")
-	kinds := []string{"open-rw", "open-rw", "open-ro", "open-ro", "open-ro", "close", "close", "close", "publish", "publish", "ro-queries", "fail-flags", "fail-corrupt", "fail-missing", "ro-damaged", "damaged-read-close", "open-while-closing"}
+	kinds := []string{"open-rw", "open-rw", "open-ro", "open-ro", "open-ro", "close", "close", "close", "publish", "publish", "ro-queries", "fail-flags", "fail-corrupt", "fail-missing", "fail-listing", "ro-damaged", "damaged-read-close", "open-while-closing"}
 	for i := 0; i < n; i++ {
 		c.Ops = append(c.Ops, HOp{Kind: pick(t, kinds, "kind"), Slot: uni(t, 3, "slot"), RO: rapid.Bool().Draw(t, "ro"), N: uni(t, 64, "n"), RmIx: uni(t, 4, "rmix") == 3})
 	}
